@@ -11,7 +11,7 @@ use std::sync::Arc;
 use std::time::SystemTime;
 use std::{fmt, fs, io};
 
-use chrono::{DateTime, FixedOffset, Local};
+use chrono::{DateTime, Duration, FixedOffset, Local};
 use priority_queue::PriorityQueue;
 use rand::distributions::Alphanumeric;
 use rand::Rng;
@@ -563,7 +563,16 @@ fn was_modified(files: &[PathAndMetadata], after: DateTime<FixedOffset>, log: &d
         match modified {
             Ok(file_timestamp) => {
                 let file_timestamp: DateTime<Local> = file_timestamp.into();
-                if file_timestamp > after {
+                // Some file systems keep the timestamps with a resolution of 1 or 2 seconds
+                // (ext3, FAT, HFS+, some network file systems). A file written there after
+                // `after`, but within the same second, gets a timestamp earlier than `after`.
+                // A timestamp without a fractional part has most likely been rounded that way.
+                let resolution = if file_timestamp.timestamp_subsec_nanos() == 0 {
+                    Duration::seconds(2)
+                } else {
+                    Duration::zero()
+                };
+                if file_timestamp + resolution > after {
                     log.warn(format!(
                         "File {} was updated after {} (at {})",
                         p.display(),
